@@ -185,6 +185,47 @@ class SeedWalk(Harness):
         return ok
 
 
+class TaskIds(Harness):
+    """the key under which a task's progress is saved tells apart everything that makes two seed tasks different work:
+    name, cache, grid and the level list (caches with upscale/downscale tiles get one task per level; a shared key would make
+    the "finished" marker of one level skip all the others)"""
+    modules = ['mapproxy.grid', 'mapproxy.seed.util', 'mapproxy.util.coverage', 'mapproxy.seed.seeder']
+    functions = ['SeedTask.id', 'CleanupTask.id']
+
+    @classmethod
+    def build(cls, L, cfg):
+        return dict(seeder=L.mods['mapproxy.seed.seeder'])
+
+    @classmethod
+    def inputs(cls, ctx, cfg):
+        v = [int_var(n) for n in ('a0', 'a1', 'b0', 'b1')]
+        assume(AND(*[AND(t >= 0, t <= 30) for t in v]))
+        return dict(la=v[:2], lb=v[2:])
+
+    @classmethod
+    def native_inputs(cls, cex):
+        return dict(la=[int(x) for x in cex['la']], lb=[int(x) for x in cex['lb']])
+
+    @classmethod
+    def prop(cls, ctx, cfg, la, lb):
+        import types
+        seeder = ctx['seeder']
+        tm = types.SimpleNamespace(grid=None)
+        md = {'name': 'x', 'cache_name': 'c', 'grid_name': 'g'}
+        n = cfg['n']
+        ta = seeder.SeedTask(dict(md), tm, list(la[:n]), None, False, None)
+        tb = seeder.SeedTask(dict(md), tm, list(lb[:n]), None, False, None)
+        same_levels = AND(*[la[i] == lb[i] for i in range(n)])
+        same_id = ta.id == tb.id
+        same_id = bool(same_id) if isinstance(same_id, SymBool) else same_id
+        ok = IMPLIES(NOT(same_levels), not same_id)
+        # other fields
+        tc = seeder.SeedTask({'name': 'x', 'cache_name': 'other', 'grid_name': 'g'}, tm, list(la[:n]), None, False, None)
+        td = seeder.SeedTask({'name': 'y', 'cache_name': 'c', 'grid_name': 'g'}, tm, list(la[:n]), None, False, None)
+        te = seeder.SeedTask({'name': 'x', 'cache_name': 'c', 'grid_name': 'h'}, tm, list(la[:n]), None, False, None)
+        return AND(ok, ta.id != tc.id, ta.id != td.id, ta.id != te.id)
+
+
 class Interruption(Harness):
     """interrupt at a symbolic save point and continue from the saved progress: everything an
     uninterrupted run hands over is handed over before the stop or after the restart"""
@@ -332,6 +373,8 @@ def obligations(tier, seed):
         for stop in ('kill', 'graceful'):
             name = 'interruption-%s/%s/L%s/m%dx%d' % (stop, c['grid'], '-'.join(map(str, c['levels'])), c['meta'][0], c['meta'][1])
             specs.append(spec(MOD, 'Interruption', name, cfg=dict(c, stop=stop), cost=200))
+    for n in (1, 2):
+        specs.append(spec(MOD, 'TaskIds', 'progress-key-distinguishes-tasks/levels%d' % n, cfg=dict(n=n), cost=2))
     for f in ('can_skip_spec', 'can_skip_never_skips_ancestor'):
         specs.append(crosshair_runner.spec(MOD, CH, f, 'progress/' + f, timeout=120, cost=60, functions=['SeedProgress.can_skip']))
     specs.append(spec(MOD, 'SeedWalk', 'twin/SeedWalk', kind='witness', cfg=dict(grid='f2', levels=[0, 1], meta=[1, 1], target_level=1)))
@@ -352,7 +395,7 @@ META = dict(
                 'main tile of a selected level whose meta tile touches the coverage) and interruption safety (three runs in one '
                 'symbolic execution: uninterrupted, stopped at a symbolic report, continued from the saved progress identifier; the '
                 'uninterrupted set is covered by the other two). CrossHair confirms the skip rule of SeedProgress.can_skip.',
-    functions=sorted(set(SeedWalk.functions + Interruption.functions)),
+    functions=sorted(set(SeedWalk.functions + Interruption.functions + TaskIds.functions)),
     bounds='coverage at most 1.5 (quick) meta tiles of the deepest level wide/high, at least 1 unit; pyramids of 2-3 levels from 4 grid '
            'shapes (factor 2, irregular resolutions with ul origin, sqrt2, non-square tiles); meta 1x1 and 2x2; interruption at any of '
            'the first 12 progress reports',
